@@ -87,6 +87,8 @@ def run_isolated(sid, ids, tier):
             rc, out = sh([os.path.join(vcopy, "check"), pid, "--tier", tier], cwd=vcopy, env=env, timeout=7200)
             viol = [l for l in out.splitlines() if l.startswith("VIOLATION")]
             print(f"{sid} {pid} {tier}: exit={rc} {'DETECTED' if rc == 1 else 'MISSED' if rc == 0 else 'MACHINERY'}" + (f" :: {viol[0][:200]}" if viol else ""))
+            meta["checks"][f"{pid}:{tier}"] = {"exit": rc, "first_violation": (viol[0][:400].replace(vcopy, "/verif") if viol else None), "n_violation_lines": len(viol)}
+        json.dump(meta, open(os.path.join(dst, "meta.json"), "w"), indent=1)
         shutil.rmtree(vcopy, ignore_errors=True)
     finally:
         sh(["git", "-C", "/repo", "worktree", "remove", "--force", wt])
